@@ -414,7 +414,7 @@ class Verifier(Engine):
                 src = self.ev(v)          # {**other}
                 if isinstance(src, Py) and src.kind == "ext":
                     src = self.ext_value(src.p)
-                if isinstance(src, Py) or src.ty != h:
+                if isinstance(src, Py) or src.ty.kind != "dict" or [sort_of(a) for a in src.ty.args[:2]] != [sort_of(a) for a in h.args[:2]]:
                     raise Unsupported("dict unpacking of %r" % (src,))
                 self.dict_copy_into(d, src)
             else:
@@ -833,6 +833,9 @@ class Verifier(Engine):
                 seq = self.materialize(seq, "seq") if seq.kind != "ext" else self.ext_value(seq.p)
             seqv = self.as_seq(seq)
             n = self.seq_len(seqv)
+            if isinstance(fn, Py) and fn.kind == "builtin" and fn.p == "str" and seqv.ty.elem.kind == "val" \
+                    and ("%s_str" % seqv.ty.elem.args[0]) in self.reg.logic.funcs and seqv.ty.kind != "deque":
+                return self.mapped_str_seq(seqv, kind)
             i = self.fresh("i", z3.IntSort())
             self.quant_depth += 1
             self.bound_stack.append(i)
@@ -848,6 +851,17 @@ class Verifier(Engine):
             self.assume(z3.ForAll([i], z3.Implies(AND(i >= 0, i < n), z3.Select(self.seq_arr(r), i) == mv.t)))
             return r
         raise Unsupported("list()/tuple() of %r" % (src,))
+
+    def mapped_str_seq(self, seqv, kind="seq"):
+        """[str(x) for x in seq] for a value sort with a declared *_str function: the array is Map(str_fn, arr),
+        a deterministic term, so code and specification agree syntactically."""
+        f, _, _ = self.spec_func("%s_str" % seqv.ty.elem.args[0])
+        out_t = self._out_type(kind, T.STR)
+        r = self.new_list(out_t, [])
+        key, srt = self.el_key(out_t)
+        self.hset(key, z3.Store(self.hget(key, srt), r.t, z3.Map(f, self.seq_arr(seqv))))
+        self.hstore(self.k_len(out_t), r.t, self.seq_len(seqv))
+        return r
 
     def _out_type(self, kind, elem):
         h = getattr(self, "_assign_hint", None)
@@ -1235,7 +1249,9 @@ class Verifier(Engine):
         try:
             if k == 0:
                 rt = ty(con.returns)
-                if rt.kind == "none":
+                if getattr(con, "returns_self", False) and selfv is not None:
+                    res = selfv
+                elif rt.kind == "none":
                     res = NONE_V
                 else:
                     res = V(rt, self.fresh("res_" + label.replace(".", "_"), sort_of(rt)))
@@ -1413,6 +1429,10 @@ class Verifier(Engine):
             sep, seqv = self.ev_v(a[0]), self.ev_v(a[1])
             n = self.coerce(self.ev_v(a[2]), T.INT).t if len(a) > 2 else self.seq_len(seqv)
             return V(T.STR, join_fn()(sep.t, self.seq_arr(seqv), n))
+        if name == "join_strs":
+            sep, seqv = self.ev_v(a[0]), self.ev_v(a[1])
+            f, _, _ = self.spec_func("%s_str" % seqv.ty.elem.args[0])
+            return V(T.STR, join_fn()(sep.t, z3.Map(f, self.seq_arr(seqv)), self.seq_len(seqv)))
         if name == "in_re":
             s = self.ev_v(a[0])
             return V(T.BOOL, z3.InRe(s.t, rx.grammar(a[1].value)))
